@@ -22,7 +22,7 @@ def build():
 
 SUMMARY_RE = re.compile(r'(\w+)=(\S*)')
 
-def run_one(binary, wd, name, flags, nomodel=False, timeout=900):
+def run_one(binary, wd, name, flags, nomodel=False, timeout=1500, keep=True, keep_sample=False):
     """one shardh process + one driver process. Returns a dict."""
     os.makedirs(wd, exist_ok=True)
     trace = os.path.join(wd, name + '.trace'); out = os.path.join(wd, name + '.out')
@@ -62,12 +62,15 @@ def run_one(binary, wd, name, flags, nomodel=False, timeout=900):
             for kv in res['dsum'].get('sites', '').split(','):
                 if ':' in kv:
                     s, n = kv.rsplit(':', 1); res['sites'][s] = int(n)
+    res['sample'] = run_lines(trace, 0)[:12] if keep_sample else []
+    if not keep and not res['conf_fail'] and not res['spec_fail'] and res['rc'] == 0 and res['dsum']:
+        os.remove(trace)      # conforming traces are large (about 6 KB per schedule); failing ones stay for the replay file
     return res
 
 def run_many(binary, wd, jobs, nomodel=False, workers=16):
     """jobs: list of (name, flags)."""
     with ThreadPoolExecutor(max_workers=workers) as ex:
-        futs = [ex.submit(run_one, binary, wd, n, f, nomodel) for n, f in jobs]
+        futs = [ex.submit(run_one, binary, wd, n, f, nomodel, 1500, False, i < 2) for i, (n, f) in enumerate(jobs)]
         return [f.result() for f in futs]
 
 def run_lines(trace, k):
